@@ -9,6 +9,7 @@ from .. import core
 from . import _gen
 from . import _hashmap
 from . import _c03_micro
+from . import _c03_free
 
 M60 = (1 << 60) - 1
 M64 = (1 << 64) - 1
@@ -584,6 +585,10 @@ def run(ctx):
     ctx.notes.append("history: incrF used to return / deliver the unreduced 64-bit sum once it reached 2^60 (found by this check, "
                      "fixed in /repo 70f90aa); regression: corpus/C03/05_incrF_wrap.txt, Syncvar/Examples.v incrF_wrap_regression")
     _hashmap.run_tier(ctx, quick)      # qt_hash (src/hashmap.c): theorems + M1 tie, see _hashmap.py
+    # ---- free-running tier (extension I) ----
+    ctx.coq_properties("Properties/Properties_C03_hist.v")
+    _c03_free.run_free(ctx, quick)         # mode M4: generated programs on the real runtime, no controller; per-variable histories judged by the proved acceptor of Syncvar/History.v, see _c03_free.py
+    # ---- end of free-running tier (extension I) ----
     # ---- micro-step tier (extension B) ----
     _c03_micro.run_micro(ctx, quick)       # ctx.coq_properties("Properties/Properties_C03_micro.v") + Syncvar/MicroAll.v replayed on the real
                                            # syncvar.c with a targeted baton, see _c03_micro.py
@@ -637,6 +642,8 @@ def replay(ctx, path):
     r = j.get("replay", {})
     if str(j.get("signature", "")).startswith("hashmap") and r.get("script"):
         return _hashmap.replay_script(ctx, r["script"])
+    if r.get("free"):                                                           # ---- free-running tier (extension I) ----
+        return _c03_free.replay_file(ctx, path)
     if str(j.get("signature", "")).startswith("micro:") and r.get("probe"):     # ---- micro-step tier (extension B) ----
         return _c03_micro.replay_probe(ctx, r["probe"])
     print(json.dumps({k: r.get(k) for k in ("config", "script_readable", "oracle")}, indent=1)[:3000])
